@@ -398,6 +398,7 @@ def _core(sig):
 
 
 _REF = {}
+_REF_FAILED = set()
 
 
 def _ref_cache(name, entry):
@@ -654,7 +655,14 @@ def _judge(res, name, fmt, entry, text, dmg, fault_class, section, detail_fault,
     well-formed file, which no reader can tell from an undamaged one."""
     ref_exc, ref = _ref_cache(name, entry)
     if ref_exc is not None:
-        raise HarnessError(f"reference parse of {name} via {entry} raised {ref_exc!r}")
+        # The UNDAMAGED file does not parse through this entry point.  Which well-formed files parse is another property's
+        # business (C07); a tree that rejects one of the corpus files is judged on the others.  (On the unchanged tree every
+        # reference parses; a tree that rejects most of the corpus cannot be judged at all.)
+        res.stats["probe:reference_parse_failed"] += 1
+        _REF_FAILED.add(name)
+        if len(_REF_FAILED) > len(corpus()) // 2:
+            raise HarnessError(f"reference parse fails for most corpus files, e.g. {name} via {entry}: {ref_exc!r}")
+        return
     got, exc, st = _call(fmt, entry, dmg)
     res.evals += 1
     if st is not None:
